@@ -84,10 +84,10 @@ TEXT = {
            "those guards; any interleaving, loss, duplication, reordering of messages): election safety, log matching, leader completeness and "
            "state-machine safety for every reachable state under membership changes, and a machine-checked counterexample for the variant without "
            "the own-term-commit guard. The abstract reconfiguration protocol also has the durable prefix, flushing and crash/restart losing the "
-           "unflushed tail (commit <= flushed, committed entries survive any further steps); it has no snapshot steps (those are in Abs/Raft.v for a "
-           "static voter set). It is tied to the code twice: through the node-level guard theorems plus the per-event correspondence, and by a history checker "
+           "unflushed tail (commit <= flushed, committed entries survive any further steps) and snapshot installation over logical logs (as Abs/Raft.v "
+           "has for a static voter set). It is tied to the code twice: through the node-level guard theorems plus the per-event correspondence, and by a history checker "
            "(Abs/CfgExec.v, proved sound, theorems in Props/CfgTie.v): on every run, membership-changing whole-cluster histories of the real nodes "
-           "(random schedules and the scenario corpus; with crashes and restarts, without snapshots) are translated into actions of Abs/CfgRaft.v and accepted only if "
+           "(random schedules and the whole scenario corpus; with membership changes, crashes and restarts, snapshots, compaction and installation) are translated into actions of Abs/CfgRaft.v and accepted only if "
            "every action is enabled and the abstract nodes agree with the observed terms, logs, durable prefixes, roles and commit indices - so election safety, log "
            "matching and state-machine safety are theorems about what was observed (cfg_observed_*).",
   "design_ref": "DESIGN.md 5 (C08)", "note": NODE_NOTE,
